@@ -91,6 +91,11 @@ def run(ctx):
         vals += [bytes(x) for x in itertools.product(range(256), repeat=2)]
         vals += [bytes(x) for n in (3, 4) for x in itertools.product(SYNTAX, repeat=n)]
     vals += [rng.randbytes(rng.choice([3, 5, 16, 64, 512])) for _ in range(40 if q else 500)]
+    # values that, once escaped, look like escape sequences themselves: a real backslash followed by the text of an escape
+    # (\\x41, \\u0041, \\n, \\" ...), with hex digits of either case, alone and embedded
+    hexes = ["41", "4a", "4A", "aB", "Ab", "ff", "FF", "00", "0a", "7f", "fE"]
+    esc_like = [b"\\x" + h.encode() for h in hexes] + [b"\\u00" + h.encode() for h in hexes] + [b"\\u12" + h.encode() for h in hexes[:3]] + [b"\\n", b"\\r", b"\\t", b"\\\\", b"\\\"", b"\\'", b"\\u", b"\\x", b"\\x4", b"\\u004"]
+    vals += esc_like + [b"pre" + v + b"post" for v in esc_like] + [v + v for v in esc_like[:12]] + [b"\\" + v for v in esc_like[:12]]
     vals = list(dict.fromkeys(vals))
     ev = []
     for b in vals:
